@@ -103,6 +103,9 @@ ASSUMPTIONS = [
     'the OpenMKM back references are checked structurally instead: after a decode every BEP of the '
     'decoded tree lists exactly the decoded reactions that use it (per direction), the original '
     "tree's lists keep their lengths and a second decode gives lists of the same lengths",
+    'attributes are re-assigned on the live object (and coefficient sets given to SingleNasa9) as list / '
+    'tuple / ndarray, scalars as python float / int or numpy float; numpy INTEGER scalars are telemetry '
+    'only (extra.outside_documented_type: the encoder refuses them; the spreadsheet route yields python ints)',
     'a gas species built with add_gas_P_adj=False is exercised as telemetry only '
     '(extra.add_gas_P_adj_False): the flag is not an attribute of the object, see GEN_NO_P_ADJ',
 ]
@@ -331,6 +334,8 @@ def g_empirical(rng, kind, name, rich=True, phase=None):
     else:
         sp = S.gen_shomate(rng, name=name, phase=phase, units=rng.choice(['J/mol/K', 'J/mol/K', 'cal/mol/K', 'eV/K']))
     _fix_range(sp, rng)
+    if kind == 'Nasa9' and rng.random() < 0.35:
+        sp['a_as'] = rng.choice(['list', 'tuple'])       # container the intervals' constructors get
     if kind == 'Nasa9' and len(sp['nasas']) > 1:
         # the order of the interval list is the object's own (a temperature on a shared bound is
         # resolved by list order): ascending, descending or shuffled
@@ -519,6 +524,196 @@ def g_lsr(rng):
     return n
 
 
+# ---- attribute re-assignment on the live object before it is encoded ---------------------------
+# class -> [(attribute, kind of value, container types a user would assign it with)]
+SEQ = ['list', 'tuple', 'ndarray']
+SCAL = ['float', 'int', 'npfloat']
+_RX = [('reactants_stoich', 'stoich_r', SEQ), ('products_stoich', 'stoich_p', SEQ), ('notes', 'notes', ['json'])]
+_BEP = [('slope', 'slope', SCAL), ('intercept', 'intercept', SCAL), ('notes', 'notes', ['json']),
+        ('descriptor', 'descriptor', ['json'])]
+REASSIGN = {
+    'HarmonicVib': [('vib_wavenumbers', 'wavenumbers', SEQ), ('imaginary_substitute', 'sub', SCAL + ['none'])],
+    'QRRHOVib': [('vib_wavenumbers', 'wavenumbers', SEQ), ('Bav', 'Bav', ['float', 'npfloat']), ('v0', 'v0', SCAL),
+                 ('alpha', 'alpha', SCAL), ('imaginary_substitute', 'sub', SCAL + ['none'])],
+    'EinsteinVib': [('einstein_temperature', 'theta', SCAL), ('interaction_energy', 'energy', SCAL)],
+    'DebyeVib': [('debye_temperature', 'theta', SCAL), ('interaction_energy', 'energy', SCAL)],
+    'RigidRotor': [('rot_temperatures', 'rotT', SEQ), ('symmetrynumber', 'sym', ['int', 'float'])],
+    'GroundStateElec': [('spin', 'spin', SCAL), ('potentialenergy', 'energy', SCAL), ('D0', 'D0', SCAL + ['none'])],
+    'FreeTrans': [('n_degrees', 'ndeg', ['int', 'float']), ('molecular_weight', 'mw', SCAL)],
+    'ConstantMode': [('q', 'q', SCAL), ('U', 'energy', SCAL), ('S', 'small', SCAL), ('notes', 'notes', ['json'])],
+    'StatMech': [('notes', 'notes', ['json']), ('name', 'name', ['json']), ('elements', 'elements', ['json']),
+                 ('smiles', 'smiles', ['json'])],
+    'Nasa': [('a_low', 'c7', SEQ), ('a_high', 'c7', SEQ), ('T_mid', 'Tmid', SCAL),
+             ('T_low', 'Tlow', SCAL), ('T_high', 'Thigh', SCAL), ('notes', 'notes', ['json']),
+             ('elements', 'elements', ['json'])],
+    'Nasa9': [('nasas', 'perm', ['list', 'tuple']), ('notes', 'notes', ['json']), ('n_sites', 'nsites', ['int', 'none'])],
+    'SingleNasa9': [('a', 'c9', SEQ), ('T_low', 'Tlow', SCAL), ('T_high', 'Thigh', SCAL)],
+    'Shomate': [('a', 'c8', SEQ), ('T_low', 'Tlow', SCAL), ('T_high', 'Thigh', SCAL),
+                ('units', 'units', ['json']), ('notes', 'notes', ['json']), ('n_sites', 'nsites', ['int', 'none'])],
+    'Reaction': _RX, 'ChemkinReaction': _RX + [('beta', 'beta', SCAL)],
+    'SurfaceReaction': _RX + [('beta', 'beta', SCAL), ('Ea', 'intercept', SCAL + ['none']), ('id', 'rid', ['json', 'int'])],
+    'BEP': _BEP, 'omkm.BEP': _BEP + [('direction', 'direction', ['json'])],
+    'LSR': [('slope', 'slope', SCAL), ('intercept', 'intercept', SCAL), ('notes', 'notes', ['json'])],
+    'vanDerWaalsEOS': [('a', 'vdwa', SCAL), ('b', 'vdwb', ['float', 'npfloat'])],
+    'CatSite': [('site_density', 'sden', ['float', 'npfloat']), ('density', 'dens', SCAL), ('name', 'name', ['json'])],
+    'PiecewiseCovEffect': [('name', 'name', ['json']), ('name_i', 'name', ['json'])],
+    'References': [('T_ref', 'Tref', SCAL), ('offset', 'offset', ['json'])],
+    'Reference': [('T_ref', 'Tref', SCAL), ('HoRT_ref', 'energy', SCAL), ('notes', 'notes', ['json'])],
+    'PhaseDiagram': [('norm_factors', 'norm', SEQ)],
+}
+REASSIGN_CLASSES = ['reassign:%s.%s:%s' % (c, a, k) for c, lst in REASSIGN.items() for a, _, ks in lst for k in ks]
+REQUIRED_CLASSES = REQUIRED_CLASSES + REASSIGN_CLASSES + [
+    'reassign:nested_in_StatMech', 'reassign:nested_in_reaction',
+    # coefficient sets handed to the CONSTRUCTOR as list / tuple (SingleNasa9 stores what it is given)
+    'SingleNasa9:ctor_a_list', 'SingleNasa9:ctor_a_tuple', 'Nasa9:ctor_a_list', 'Nasa9:ctor_a_tuple']
+
+
+def _reval(rng, kind, cont, node):
+    """JSON form of a new value of `kind` to be assigned in container `cont`"""
+    i = cont == 'int'
+    if cont == 'none':
+        return None
+    if kind == 'wavenumbers':
+        return S.gen_wavenumbers(rng)
+    if kind == 'sub':
+        return rng.randint(10, 200) if i else _r(rng, 10, 200, 2)
+    if kind == 'Bav':
+        return S.logu(rng, 1e-46, 1e-43)
+    if kind == 'v0':
+        return rng.randint(50, 200) if i else _r(rng, 50, 200, 2)
+    if kind == 'alpha':
+        return rng.choice([2, 3, 4, 5, 6]) if i else rng.choice([2.0, 3.5, 4.0, 5.25])
+    if kind == 'theta':
+        return rng.randint(50, 2000) if i else S.logu(rng, 50, 2000)
+    if kind == 'energy':
+        return rng.randint(-5, 5) if i else _rz(rng, -5, 5, 5)
+    if kind == 'rotT':
+        return [S.logu(rng, 0.01, 100.0) for _ in node.get('rot_temperatures') or []]
+    if kind == 'sym':
+        return rng.choice([1, 2, 3, 4, 6, 12])
+    if kind == 'spin':
+        return rng.choice([0, 1, 2, 3]) if i else rng.choice([0.0, 0.5, 1.0, 1.5, 2.5])
+    if kind == 'D0':
+        return rng.randint(1, 8) if i else _r(rng, 0.5, 8.0)
+    if kind == 'ndeg':
+        return rng.choice([1, 2, 3])
+    if kind == 'mw':
+        return rng.randint(1, 300) if i else S.logu(rng, 1.0, 500.0)
+    if kind == 'q':
+        return rng.randint(1, 50) if i else _r(rng, 0.5, 50, 4)
+    if kind == 'small':
+        return 0 if i else _rz(rng, 0, 1e-2, 6)
+    if kind == 'c7':
+        return S.gen_nasa7_coeffs(rng)
+    if kind == 'c9':
+        return S.gen_nasa9_coeffs(rng)
+    if kind == 'c8':
+        return S.gen_shomate(rng)['a']
+    if kind == 'Tmid':
+        return rng.randint(300, 2000) if i else _r(rng, 300, 2000, 2)
+    if kind == 'Tlow':
+        return 100 if i else 100.0
+    if kind == 'Thigh':
+        return 3000 if i else 3000.0
+    if kind == 'Tref':
+        return rng.randint(200, 600) if i else rng.choice([298.15, _r(rng, 200, 600, 2)])
+    if kind == 'nsites':
+        return rng.choice([1, 2, 3])
+    if kind == 'perm':
+        idx = list(range(len(node['nasas'])))
+        rng.shuffle(idx)
+        return idx
+    if kind in ('stoich_r', 'stoich_p'):
+        n = len(node['reactants_stoich' if kind == 'stoich_r' else 'products_stoich'])
+        return [float(x) for x in _stoich(rng, n)] if cont == 'ndarray' else _stoich(rng, n)
+    if kind == 'slope':
+        return rng.choice([0, 1]) if i else _rz(rng, 0, 1)
+    if kind == 'intercept':
+        return rng.randint(0, 60) if i else _rz(rng, 0, 60, 3)
+    if kind == 'beta':
+        return rng.choice([0, 1, 2]) if i else rng.choice([0.0, 1.0, _r(rng, -1, 2, 2)])
+    if kind == 'rid':
+        return rng.randint(1, 999) if i else rng.choice(['r_0012', 'BEP_CH_cle_0001', None])
+    if kind == 'vdwa':
+        return rng.randint(1, 2) if i else S.logu(rng, 1e-2, 2.0)
+    if kind == 'vdwb':
+        return S.logu(rng, 1e-5, 1e-4)
+    if kind == 'sden':
+        return S.logu(rng, 1e-10, 1e-8)
+    if kind == 'dens':
+        return rng.randint(1, 25) if i else _r(rng, 1, 25, 3)
+    if kind == 'norm':
+        return [_r(rng, 0.5, 20, 3) for _ in node['reactions']]
+    if kind == 'notes':
+        return copy.deepcopy(rng.choice(NOTES))
+    if kind == 'name':
+        return rng.choice(NAMES)
+    if kind == 'smiles':
+        return rng.choice(SMILES)
+    if kind == 'elements':
+        return g_elements(rng, allow_none=True)
+    if kind == 'units':
+        return rng.choice(['J/mol/K', 'cal/mol/K', 'eV/K', 'kJ/mol/K'])
+    if kind == 'descriptor':
+        return rng.choice(DESCRIPTORS)
+    if kind == 'direction':
+        return rng.choice([None, 'cleavage', 'synthesis'])
+    if kind == 'offset':
+        return {e: _rz(rng, -30, 30, 6) for e in rng.sample(S.ELEMENT_POOL, rng.randint(1, 3))}
+    raise ValueError(kind)
+
+
+def g_reassign(rng, node, entry=None, cont=None):
+    """append one re-assignment (attribute set on the live object after construction) to a node"""
+    table = REASSIGN.get(node.get('type'))
+    if not table:
+        return node
+    attr, kind, conts = entry or rng.choice(table)
+    cont = cont or rng.choice(conts)
+    if kind == 'perm' and len(node.get('nasas') or []) < 1:
+        return node
+    node.setdefault('reassign', []).append([attr, cont, _reval(rng, kind, cont, node)])
+    return node
+
+
+def sprinkle_reassign(rng, top):
+    for node, depth in list(_walk_nodes(top)):
+        if node.get('type') in REASSIGN and rng.random() < (0.3 if depth == 0 else 0.06):
+            for _ in range(rng.randint(1, 2)):
+                g_reassign(rng, node)
+    return top
+
+
+def _conv(cont, val):
+    import numpy as np
+    if cont == 'list':
+        return list(val)
+    if cont == 'tuple':
+        return tuple(val)
+    if cont == 'ndarray':
+        return np.array(val, dtype=float)
+    if cont == 'int':
+        return int(val)
+    if cont == 'float':
+        return float(val)
+    if cont == 'npfloat':
+        return np.float64(val)
+    if cont == 'none':
+        return None
+    return copy.deepcopy(val)
+
+
+def _apply_reassign(obj, node):
+    if isinstance(node, dict):
+        for attr, cont, val in node.get('reassign') or []:
+            if attr == 'nasas':
+                seq = [obj.nasas[i] for i in val]
+                setattr(obj, attr, tuple(seq) if cont == 'tuple' else seq)
+            else:
+                setattr(obj, attr, _conv(cont, val))
+    return obj
+
+
 def g_conds(rng):
     out = []
     for _ in range(rng.randint(2, 3)):
@@ -544,7 +739,8 @@ def g_top(rng, cls):
     if cls in ('Nasa', 'Nasa9', 'Shomate'):
         return g_empirical(rng, cls, rng.choice(NAMES), rich=rng.random() < 0.85)
     if cls == 'SingleNasa9':
-        return {'type': 'SingleNasa9', 'T_low': 100.0, 'T_high': 3000.0, 'a': S.gen_nasa9_coeffs(rng)}
+        return {'type': 'SingleNasa9', 'T_low': 100.0, 'T_high': 3000.0, 'a': S.gen_nasa9_coeffs(rng),
+                'a_as': rng.choice(SEQ)}
     if cls == 'Reference':
         return g_reference(rng, rng.choice(NAMES), g_elements(rng))
     if cls == 'References':
@@ -578,7 +774,9 @@ def g_top(rng, cls):
 
 def generate(rng, tier):
     cls = rng.choice(TOP_CLASSES)
-    return {'cls': cls, 'obj': g_top(rng, cls), 'cycles': rng.choice([1, 1, 2, 3]), 'conds': g_conds(rng)}
+    spec = {'cls': cls, 'obj': g_top(rng, cls), 'cycles': rng.choice([1, 1, 2, 3]), 'conds': g_conds(rng)}
+    sprinkle_reassign(rng, spec['obj'])
+    return spec
 
 
 def _d(cls, k, **over):
@@ -769,6 +967,49 @@ def directed(tier):
                 ops.append([k])
         refs['history'] = ops
         D.append({'cls': 'References', 'obj': refs, 'cycles': 1, 'conds': g_conds(r3)})
+    # ---- round 4: every (class, attribute, container type) re-assigned on the live object ---------
+    r4 = random.Random('C11:directed:round4')
+    for cls, table in REASSIGN.items():
+        for entry in table:
+            for cont in entry[2]:
+                for _try in range(20):
+                    node = g_top(r4, cls)
+                    if cls != 'Nasa9' or len(node['nasas']) > 1:
+                        break
+                if cls == 'RigidRotor' and entry[0] == 'rot_temperatures' and not node['rot_temperatures']:
+                    node.update(geometry='nonlinear', rot_temperatures=[1.0, 2.0, 3.0])
+                g_reassign(r4, node, entry, cont)
+                D.append({'cls': cls, 'obj': node, 'cycles': r4.choice([1, 2]), 'conds': g_conds(r4)})
+    for cont in ('list', 'tuple'):
+        for cyc in (1, 3):
+            n1 = g_top(r4, 'SingleNasa9')
+            n1['a_as'] = cont
+            D.append({'cls': 'SingleNasa9', 'obj': n1, 'cycles': cyc, 'conds': g_conds(r4)})
+            n9 = g_empirical(r4, 'Nasa9', 'CO2', rich=cyc == 3)
+            n9['a_as'] = cont
+            D.append({'cls': 'Nasa9', 'obj': n9, 'cycles': cyc, 'conds': g_conds(r4)})
+        rx = g_reaction(r4, 'Reaction', kinds=['Nasa9'], rich=False)
+        for sp in rx['species'].values():
+            sp['a_as'] = cont
+        D.append({'cls': 'Reaction', 'obj': rx, 'cycles': 1, 'conds': g_conds(r4)[:2]})
+    # the same inside containers: mode inside a species, species inside a reaction (set)
+    for cont in SEQ:
+        for vk in ('HarmonicVib', 'QRRHOVib'):
+            sm = g_statmech(r4, 'CO2', rich=False)
+            sm.pop('plain')
+            sm['vib'] = g_reassign(r4, g_mode(r4, vk), REASSIGN[vk][0], cont)
+            sm['rot'] = g_reassign(r4, {'type': 'RigidRotor', 'symmetrynumber': 2, 'geometry': 'linear',
+                                        'rot_temperatures': [0.56]}, REASSIGN['RigidRotor'][0], cont)
+            D.append({'cls': 'StatMech', 'obj': copy.deepcopy(sm), 'cycles': 1, 'conds': g_conds(r4)})
+            rx = g_reaction(r4, 'Reaction', kinds=['StatMech'], rich=False)
+            rx['species'][rx['reactants'][0]] = dict(copy.deepcopy(sm), name=rx['reactants'][0])
+            D.append({'cls': 'Reaction', 'obj': rx, 'cycles': 1, 'conds': g_conds(r4)[:2]})
+            rs = g_reactions(r4, 'Reactions')
+            while rs['mixed']:
+                rs = g_reactions(r4, 'Reactions')
+            nm = rs['reactions'][0]['reactants'][0]
+            rs['species'][nm] = dict(copy.deepcopy(sm), name=nm)
+            D.append({'cls': 'Reactions', 'obj': rs, 'cycles': 1, 'conds': g_conds(r4)[:2]})
     return D
 
 
@@ -780,7 +1021,16 @@ def _build_species(node):
     if t == 'StatMech':
         refs = build(node['references']) if node.get('references') else None
         misc = [build(m) for m in node['misc_models']] if node.get('misc_models') is not None else None
-        return S.build_statmech(node, references=refs, misc_models=misc)
+        clean = dict(node)
+        slots = ('trans', 'vib', 'rot', 'elec', 'nucl')
+        for k in slots:
+            if isinstance(clean.get(k), dict):
+                clean[k] = {a: v for a, v in clean[k].items() if a != 'reassign'}
+        sm = S.build_statmech(clean, references=refs, misc_models=misc)
+        for k in slots:
+            if isinstance(node.get(k), dict):
+                _apply_reassign(getattr(sm, k + '_model'), node[k])
+        return sm
     extra = {}
     if node.get('model'):
         extra['model'] = build(node['model'])
@@ -792,6 +1042,17 @@ def _build_species(node):
         extra['n_sites'] = node['n_sites']          # passed even when None (S.build drops None)
     if node.get('add_gas_P_adj') is False:
         extra['add_gas_P_adj'] = False
+    if t == 'Nasa9' and node.get('a_as'):
+        # intervals whose constructor receives the coefficients as list / tuple (S.build uses ndarray)
+        from pmutt.empirical.nasa import Nasa9, SingleNasa9
+        common = {}
+        for k in ('phase', 'elements', 'notes', 'smiles'):
+            if node.get(k) is not None:
+                common[k] = copy.deepcopy(node[k])
+        common.update(extra)
+        nasas = [SingleNasa9(T_low=n['T_low'], T_high=n['T_high'], a=_conv(node['a_as'], n['a']))
+                 for n in node['nasas']]
+        return Nasa9(name=node['name'], nasas=nasas, **common)
     return S.build(node, **extra)
 
 
@@ -817,28 +1078,33 @@ def _build_reaction(node, pool_objs=None):
               notes=copy.deepcopy(node.get('notes')))
     t = node['type']
     if t == 'Reaction':
-        return Reaction(**kw)
+        return _apply_reassign(Reaction(**kw), node)
     if t == 'ChemkinReaction':
-        return ChemkinReaction(beta=node['beta'], is_adsorption=node['is_adsorption'],
-                               sticking_coeff=node['sticking_coeff'], **kw)
-    return SurfaceReaction(id=node['id'], is_adsorption=node['is_adsorption'], A=node['A'], beta=node['beta'],
+        return _apply_reassign(ChemkinReaction(beta=node['beta'], is_adsorption=node['is_adsorption'],
+                                               sticking_coeff=node['sticking_coeff'], **kw), node)
+    return _apply_reassign(SurfaceReaction(id=node['id'], is_adsorption=node['is_adsorption'], A=node['A'], beta=node['beta'],
                            Ea=node['Ea'], sticking_coeff=node['sticking_coeff'], direction=node['direction'],
-                           use_motz_wise=node['use_motz_wise'], **kw)
+                           use_motz_wise=node['use_motz_wise'], **kw), node)
 
 
 def build(node):
+    """real object of a spec node, with the node's re-assignments applied to the live object"""
+    return _apply_reassign(_build0(node), node)
+
+
+def _build0(node):
     import numpy as np
     if node is None or isinstance(node, (int, float)):
         return node
     t = node['type']
     if t in MODE_CLASSES:
-        m = {k: copy.deepcopy(v) for k, v in node.items()}
+        m = {k: copy.deepcopy(v) for k, v in node.items() if k != 'reassign'}
         return S.build_mode(m)
     if t in ('StatMech', 'Nasa', 'Nasa9', 'Shomate'):
         return _build_species(node)
     if t == 'SingleNasa9':
         from pmutt.empirical.nasa import SingleNasa9
-        return SingleNasa9(T_low=node['T_low'], T_high=node['T_high'], a=np.array(node['a'], dtype=float))
+        return SingleNasa9(T_low=node['T_low'], T_high=node['T_high'], a=_conv(node.get('a_as') or 'ndarray', node['a']))
     if t == 'Reference':
         from pmutt.empirical.references import Reference
         return Reference(name=node['name'], phase=node['phase'], elements=dict(node['elements']),
@@ -1648,6 +1914,14 @@ def _classify(spec, ctx):
                 ctx.cls('StatMech:elements')
             if node.get('plain'):
                 ctx.cls('StatMech:plain')
+        if t in ('SingleNasa9', 'Nasa9') and node.get('a_as') in ('list', 'tuple'):
+            ctx.cls('%s:ctor_a_%s' % (t, node['a_as']))
+        for a_, c_, _v in node.get('reassign') or []:
+            ctx.cls('reassign:%s.%s:%s' % (t, a_, c_))
+            if depth and t in MODE_CLASSES:
+                ctx.cls('reassign:nested_in_StatMech')
+            if depth and spec['cls'] in ('Reaction', 'ChemkinReaction', 'SurfaceReaction', 'Reactions', 'PhaseDiagram'):
+                ctx.cls('reassign:nested_in_reaction')
         if t == 'GroundStateElec' and node.get('D0') is not None:
             ctx.cls('GroundStateElec:D0')
         if t == 'StatMech' and node.get('references') and node['references'].get('cleared'):
@@ -1829,6 +2103,35 @@ def _telemetry_no_p_adj(ctx):
     ex[k] = ex.get(k, 0) + 1
 
 
+def _telemetry_reassign(ctx):
+    """Assignments outside the documented attribute type (coefficient arrays documented as ndarray
+    given as list / tuple, numpy integer scalars): recorded, no verdict (see ASSUMPTIONS)."""
+    import numpy as np
+    from pmutt.statmech import rot, StatMech
+    from pmutt.reaction import Reaction
+    from pmutt.io.json import pmuttEncoder, json_to_pmutt
+    ex = ctx.extra.setdefault('outside_documented_type', {})
+
+    def p4():
+        return rot.RigidRotor(symmetrynumber=np.int64(2), rot_temperatures=[1., 2., 3.], geometry='nonlinear')
+
+    def p5():
+        return StatMech(name='a', elements={'H': np.int64(2)})
+
+    def p6():
+        return Reaction(reactants=[StatMech(name='a')], reactants_stoich=np.array([1]),
+                        products=[StatMech(name='b')], products_stoich=np.array([2]))
+    for label, mk in (('RigidRotor.symmetrynumber=np.int64', p4), ('StatMech.elements value np.int64', p5),
+                      ('Reaction stoich int ndarray', p6)):
+        try:
+            o = mk()
+            m = json.loads(json.dumps(o, cls=pmuttEncoder), object_hook=json_to_pmutt)
+            k = label + ':ok' if type(m) is type(o) else label + ':wrong_class'
+        except Exception as e:                     # noqa
+            k = '%s:raises_%s' % (label, type(e).__name__)
+        ex[k] = ex.get(k, 0) + 1
+
+
 def _encode(ctx, obj, top, repeat):
     from pmutt.io.json import pmuttEncoder
     try:
@@ -1883,6 +2186,7 @@ def run_case(spec, ctx):
     if spec.get('telemetry'):
         _telemetry_extended_lsr(ctx)
         _telemetry_no_p_adj(ctx)
+        _telemetry_reassign(ctx)
         return
     top = spec['cls']
     _classify(spec, ctx)
